@@ -59,6 +59,13 @@ fn items(tier: Tier) -> Vec<Item> {
                 v.push(Item { degree, ratio: r0 * x2, kind, pre: Some((r0, m, x)), ramp: false, pre2: Some(x2) });
             }
         }
+        // strong decimation (more than 7 input frames per output frame: the carried position lies
+        // further back than the 16-frame history), two chunks, then a higher ratio - by half a
+        // per mille, by 40 %
+        for (r0, m, x2) in [(1.0 / 12.0, 1.5, 1.0005), (1.0 / 12.0, 1.5, 1.4), (1.0 / 40.0, 2.0, 1.05), (1.0 / 9.0, 1.5, 0.8)] {
+            v.push(Item { degree, ratio: r0 * x2, kind: Kind::FI, pre: Some((r0, m, 1.0)), ramp: false, pre2: Some(x2) });
+            v.push(Item { degree, ratio: r0 * x2, kind: Kind::FO, pre: Some((r0, m, 1.0)), ramp: false, pre2: Some(x2) });
+        }
     }
     v
 }
@@ -107,7 +114,11 @@ fn one<T: Flt>(acc: &mut Acc, item: &Item, chunk: usize, journal: Option<&Journa
     // uniform spacing 1/ratio
     let step = 1.0 / item.ratio;
     let mut first_valid = tau.iter().position(|t| *t >= 4.0).unwrap_or(tau.len());
-    if ramp || pre2.is_some() {
+    if pre2.is_some() && !ramp && first_call >= 1 {
+        // a change without ramp applies from the first frame of the next call: the spacing
+        // across that call boundary is already the new step
+        first_valid = first_valid.max(first_call - 1).min(tau.len());
+    } else if ramp || pre2.is_some() {
         first_valid = first_valid.max(first_call + 1).min(tau.len());
     }
     for w in tau[first_valid..].windows(2) {
